@@ -330,7 +330,7 @@ def __unpack_unit(unit, count=1):
     result = OrderedDict()
 
     for name, exp in unit.items():
-        unpacked = __unpack_unit(name, exp)
+        unpacked = __unpack_unit(name, exp * count)
         for tok, val in unpacked.items():
             __update_unit_exponent_count_in_dict(result, tok, val)
 
